@@ -167,6 +167,7 @@ def A(name, bound, tier="quick", timeout=600, **kw):
 
 
 PROP = {
+    "level_text": 'Every arithmetic kernel behind scanning and \\advance/\\multiply/\\divide is compared with a transcription of the cited TeX section for every operand in the stated range (engine B, SMT), and print -> scan is shown to be the identity for every scaled value |s| <= 2^30-1 through the real Display code (engine A, one SAT query). Token-level scanning through the VM is not decided.',
     "title": "Integers, dimensions, glue: scan, print and compute exactly as TeX does",
     "explanation": (
         "Engine B executes the MIR of each arithmetic kernel symbolically (callees inlined, overflow checks as compiled) "
